@@ -73,7 +73,7 @@ def catalogue(k: int, until: int):
                "conns": [{"src": "A", "se": "e0", "sa": "o", "dst": "B", "de": "e0", "da": "i"}]}
         remote = []                 # all in-process
     scn["until"] = until
-    scn["config"] = {"cache": True, "lazy": True, "mosaik_config": {"start_timeout": 20, "stop_timeout": 3}}
+    scn["config"] = {"cache": True, "lazy": True, "mosaik_config": {"start_timeout": 90, "stop_timeout": 5}}
     return scn, remote
 
 
@@ -172,7 +172,7 @@ def run_fault_case(scn: dict, remote: List[str], fault: Optional[dict], watchdog
     # processes: wait (bounded) for them to disappear
     logs = read_remote_logs(rdir)
     pids = {sid: next((e["pid"] for e in evs if e.get("op") == "init"), None) for sid, evs in logs.items()}
-    deadline = _time.time() + 4.0
+    deadline = _time.time() + 15.0
     states = {}
     while True:
         states = {sid: pid_state(p) for sid, p in pids.items() if p}
